@@ -47,6 +47,9 @@ type Clause struct {
 	Label string
 	E     *Expr
 	Src   string
+	// Defining: the clause defines an abstract predicate as "what this function computes"
+	// (keyword `defines`): assumed at call sites, not an obligation of the body
+	Defining bool
 }
 
 type Contract struct {
@@ -284,7 +287,7 @@ func (db *SpecDB) LoadSpecFile(path string) error {
 			db.Axioms = append(db.Axioms, c)
 			db.Markers = append(db.Markers, "axiom "+c.Label)
 			cur = nil
-		case "requires", "ensures", "panics", "assigns", "loop", "property", "inline", "pure", "nosafety", "opaque", "params", "results", "calls", "frameprop", "trusted", "purecallbacks":
+		case "requires", "ensures", "defines", "panics", "assigns", "loop", "property", "inline", "pure", "nosafety", "opaque", "params", "results", "calls", "frameprop", "trusted", "purecallbacks":
 			if cur == nil {
 				return fail(fmt.Errorf("clause outside a contract"))
 			}
@@ -301,6 +304,14 @@ func (db *SpecDB) LoadSpecFile(path string) error {
 					return fail(err)
 				}
 				cur.Ensures = append(cur.Ensures, c)
+			case "defines":
+				c, err := parseClause(rest)
+				if err != nil {
+					return fail(err)
+				}
+				c.Defining = true
+				cur.Ensures = append(cur.Ensures, c)
+				db.Markers = append(db.Markers, "defines "+cur.Name+": "+c.Src)
 			case "panics":
 				rest = strings.TrimSpace(strings.TrimPrefix(rest, "when"))
 				c, err := parseClause(rest)
@@ -392,7 +403,7 @@ func (db *SpecDB) LoadSpecFile(path string) error {
 	return nil
 }
 
-var keywords = map[string]bool{"macro": true, "functype": true, "global": true, "func": true, "extern": true, "method": true, "ufun": true, "fun": true, "axiom": true, "const": true,
+var keywords = map[string]bool{"macro": true, "functype": true, "global": true, "func": true, "extern": true, "method": true, "ufun": true, "fun": true, "axiom": true, "const": true, "defines": true,
 	"requires": true, "ensures": true, "panics": true, "assigns": true, "loop": true, "property": true, "inline": true, "pure": true,
 	"nosafety": true, "opaque": true, "params": true, "results": true, "calls": true, "frameprop": true, "trusted": true, "purecallbacks": true}
 
@@ -798,6 +809,9 @@ func (p *parser) postfix(e *Expr) *Expr {
 				tn := ty.text
 				if ty.kind == "op" && ty.text == "*" {
 					tn = "*" + p.next().text
+				}
+				if ty.kind == "str" {
+					tn = ty.text // a Go type expression written as a string literal
 				}
 				for p.isOp(".") {
 					p.next()
